@@ -158,6 +158,9 @@ def make_dataset(d, spec=None):
     if not s['monotone']:
         samples = samples.copy()
         samples[1], samples[2] = samples[2] + 1, samples[1]
+    elif s['monotone'] == 'ties' and len(samples) >= 3:
+        samples = samples.copy()
+        samples[2] = samples[1]         # two spikes at the same sample: non-decreasing, legal
     samples = samples.astype(s['time_dtype'])
     truth['spike_samples'] = samples
     if s['spike_templates'] is not None:
